@@ -128,23 +128,26 @@ def run(prog, tier) -> Result:
             sym_names.add(w.state)
     for sn in sym_names:
         check_ownership(res, "R17.4", writes, sn, dict(UNIT_CREATION_ENTRY_POINTS), cg)
-    # insert-if-absent: the store into the symbol directory sits in the handler of the failed lookup
-    guarded = False
-    for n in ast.walk(mk.node):
-        if isinstance(n, ast.Try):
-            looks = [x for b in n.body for x in ast.walk(b) if isinstance(x, ast.Subscript)]
-            for h in n.handlers:
-                if h.type is not None and src_of(h.type) == "KeyError":
-                    for x in ast.walk(ast.Module(body=h.body, type_ignores=[])):
-                        if isinstance(x, ast.Assign) and isinstance(x.targets[0], ast.Subscript) and looks and \
-                                src_of(x.targets[0].value) == src_of(looks[0].value) and \
-                                src_of(x.targets[0].slice) == src_of(looks[0].slice):
-                            guarded = True
-            if n.orelse and not any(isinstance(x, ast.Raise) for b in n.orelse for x in ast.walk(b)):
-                guarded = False
-    res.ob("R17.4", mk.qualname, "symbol directory is insert-if-absent", guarded,
-           "the store is not confined to the KeyError handler of a lookup of the same key (with a raise in else)",
-           sig="symbol directory entry may be overwritten")
+    # insert-if-absent: on every successful creation path the key was first found absent in the symbol directory
+    # (failed lookup or negative membership test) - decided on Engine A's effect log, not on the code's shape
+    from .c15 import run_entry, judge_unit_registered
+    from ..declcases import base_types
+
+    def mk_body(I, c):
+        base_types(c)
+        d = TermV(RF.atom(("defmag",)), {"T1": (1, 0)})
+        return I.call_function(mk, [c.cls("T1"), StrV(None, "symbol"), StrV(None, "name"), d], {})
+
+    def judge_absent(o):
+        r = judge_unit_registered(o, want_def_mag=None)
+        if r is not None and ("without checking that it is free" in r[0] or "stored exactly once" in r[0]):
+            return r
+        found = any("_SYMBOL_UNIT_MAP[" in t and t.endswith("=found") for t in o.trace) or \
+            any(t.startswith("in@") and t.endswith("=present") for t in o.trace)
+        if found and o.kind == "return":
+            return ("existing symbol directory entry overwritten", o.brief())
+        return None
+    run_entry(prog, res, "R17.4", mk.qualname, "symbol directory is insert-if-absent", mk_body, judge_absent, min_paths=3)
     for state, owners in (("_item_def_map", {"DefinedItemRegistry.__init__": {"="}, "DefinedItemRegistry.register_item": {"[]="}}),
                           ("_item_list", {"DefinedItemRegistry.__init__": {"="}, "DefinedItemRegistry.register_item": {"append"}})):
         check_ownership(res, "R17.4", writes, state, owners, cg)
